@@ -63,7 +63,10 @@ def call_oracle(c):
     except Exception as e:
         return 'output does not evaluate: %s: %s' % (type(e).__name__, e)
     import c01
-    if not PC.strict_equal(got, c01.expected(c.value, c.cfg.get('sort_dict_keys', False))):
+    value = c.value
+    if any(x[0] == 'commented' for _kw, x in t[3]):
+        value = valgen.build(PC.strip_comments_term(t))[0]
+    if not PC.strict_equal(got, c01.expected(value, c.cfg.get('sort_dict_keys', False))):
         return 'evaluating the text does not perform the same call: %r' % (got,)
     return None
 
@@ -78,9 +81,17 @@ def call_cases(tier):
         args = [valgen.rand_val(r, r.randint(1, 8), {'sub', 'call'}) for _ in range(na)]
         kws = [(r.choice(['x', 'key', 'long_keyword_name', 'value', 'cls']) + str(i), valgen.rand_val(r, r.randint(1, 8), {'call'}))
                for i in range(nk)]
-        t = ('call', r.choice(['make', 'Thing', 'f']), args, kws)
         k += 1
-        w = r.choice([1, 10, 30, 79, 200])
+        commented = False
+        if kws and k % 4 == 0:
+            # a comment on keyword arguments only (no positional one carries any): the call must still be the call
+            j = r.randrange(len(kws))
+            kws = [(kw, ('commented', x, r.choice(['note', 'two words'])) if (i == j or r.random() < 0.2) else x)
+                   for i, (kw, x) in enumerate(kws)]
+            args = [valgen.rand_val(r, r.randint(1, 3), set()) for _ in range(na)]
+            commented = True
+        t = ('call', r.choice(['make', 'Thing', 'f']), args, kws)
+        w = r.choice([79, 200, 120]) if commented and r.random() < 0.7 else r.choice([1, 10, 30, 79, 200])
         cfg = dict(width=w, ribbon_width=r.choice([w, max(1, w // 2)]), indent=r.choice([1, 4, 8]))
         if k % 3 == 0:
             # the remaining settings reach the arguments unchanged as well
